@@ -23,11 +23,11 @@ func init() {
 		},
 		Rules: []RuleDef{
 			{Name: "C07-VIS", Floor: 10, Doc: "member lookups from outside reach their use only through a modifier test", Run: c07Run},
-			{Name: "C07-PRIV", Floor: 3, Doc: "private and protected are decided by different predicates", Run: nop},
-			{Name: "C07-TYPE", Floor: 6, Doc: "typed boundaries consult Types.Is", Run: nop},
-			{Name: "C07-REJECT", Floor: 6, Doc: "on a path where the declared type's Is(value) answered false, the boundary neither stores nor returns successfully (unless a later Is on the value answers true)", Run: nop},
+			{Name: "C07-PRIV", Floor: 2, Doc: "private and protected are decided by different predicates", Run: nop},
+			{Name: "C07-TYPE", Floor: 3, Doc: "typed boundaries consult Types.Is", Run: nop},
+			{Name: "C07-REJECT", Floor: 5, Doc: "on a path where the declared type's Is(value) answered false, the boundary neither stores nor returns successfully (unless a later Is on the value answers true)", Run: nop},
 			{Name: "C07-PRED", Floor: 1, Doc: "the visibility predicate grants access only on an identity between one party itself (caller class, bound scope, or target class) and a member of the other's extends chain", Run: nop},
-			{Name: "C07-NEW", Floor: 4, Doc: "object creation is preceded by the abstract-class rejection; concrete classes validate abstract methods", Run: nop},
+			{Name: "C07-NEW", Floor: 2, Doc: "object creation is preceded by the abstract-class rejection; concrete classes validate abstract methods", Run: nop},
 		},
 	})
 }
